@@ -145,7 +145,7 @@ func layoutStyles(base Style, conts [][]int, emit func(Style)) {
 func designated(axis string, n int, thorough bool) bool {
 	step := map[string]int{"targets": 120, "actions": 150, "operator": 700}[axis]
 	if thorough {
-		step /= 10
+		step /= 3
 	}
 	return n%step == 7%step
 }
